@@ -53,6 +53,7 @@ type recReader struct {
 	failAt    int // Read call index (0-based) that fails; -1 never
 	chunk     int // > 0: a Read delivers at most chunk octets (short reads, as a real source may)
 	stream    []byte
+	val       int // mode "const"
 	pos       int
 	reads     int
 	delivered []byte
@@ -86,6 +87,8 @@ func (r *recReader) Read(b []byte) (int, error) {
 			v = 0
 		case "ff":
 			v = 0xff
+		case "const": // every octet the source delivers has the same value
+			v = byte(r.val)
 		default:
 			v = byte((r.seed*131 + r.pos*29 + (r.pos/7)*17 + 11) % 251)
 		}
@@ -114,6 +117,9 @@ func readerOf(spec J) *recReader {
 		return nil
 	}
 	r := &recReader{mode: gs(spec, "mode"), seed: gi(spec, "seed"), failAt: -1}
+	if _, ok := spec["val"]; ok {
+		r.val = gi(spec, "val")
+	}
 	if _, has := spec["failat"]; has {
 		r.failAt = gi(spec, "failat")
 	}
